@@ -23,7 +23,8 @@ META = {
              'defense_status (float/None), existence_status (bool/None), is_viable / is_necessary (bool), mitre_info, tags '
              '(a list of str), extras, child and parent id sets; attackers by id: name, entry-point ids, reached ids; with a '
              'model every loaded node must be bound to the model asset of the same name (identity); non-trivial = graph with '
-             '>= 2 nodes, >= 1 edge and either an attacker or a False flag; distinct = digest(start, history, format, model?)'),
+             '>= 2 nodes, >= 1 edge and either an attacker or a False flag; distinct = digest(start, history, format, model?)'
+             '; added strata: links recorded at one end only, digit-string keys in extras, a smaller graph saved over the same path, path shapes, exotic characters'),
     'assumptions': ['edges are compared as sets (a serialised graph cannot express multiplicity)',
                     'nodes are identified by id; full names must be unique for a graph to be serialisable (C02)'],
     'shards': {'quick': 8, 'thorough': 16},
